@@ -123,7 +123,7 @@ func (d *Devmod) Write(ctx context.Context, deviceModules map[string]DeviceModul
 			return
 		}
 
-		if err := d.writeDescriptorMessages(w); err != nil {
+		if err := d.writeDescriptorMessages(mtu, w); err != nil {
 			_ = w.CloseWithError(err)
 			return
 		}
@@ -137,12 +137,35 @@ func (d *Devmod) Write(ctx context.Context, deviceModules map[string]DeviceModul
 	}
 }
 
-func (d *Devmod) writeDescriptorMessages(w *UnchunkWriter) error {
-	// Active must always be true
-	if err := w.NextServiceInfo(devmodModuleName, "active"); err != nil {
+func (d *Devmod) writeDescriptorMessages(mtu uint16, w *UnchunkWriter) error {
+	// The owner parses every devmod value as one complete item, so a value
+	// must not straddle two messages: keep track of the space used in the
+	// current message and start a new one when the next value would not fit.
+	used := 0
+	write := func(messageName string, val any) error {
+		data, err := cbor.Marshal(val)
+		if err != nil {
+			return err
+		}
+		size := int((&KV{Key: devmodModuleName + ":" + messageName, Val: data}).Size())
+		// (the chunk reader reserves up to 2 bytes more than the value's
+		// actual length prefix needs)
+		if used > 0 && used+size+2 > int(mtu) {
+			if err := w.ForceNewMessage(); err != nil {
+				return err
+			}
+			used = 0
+		}
+		used += size
+		if err := w.NextServiceInfo(devmodModuleName, messageName); err != nil {
+			return err
+		}
+		_, err = w.Write(data)
 		return err
 	}
-	if err := cbor.NewEncoder(w).Encode(true); err != nil {
+
+	// Active must always be true
+	if err := write("active", true); err != nil {
 		return err
 	}
 
@@ -154,14 +177,15 @@ func (d *Devmod) writeDescriptorMessages(w *UnchunkWriter) error {
 		if dm.Field(i).Len() == 0 {
 			continue
 		}
-		if err := w.NextServiceInfo(devmodModuleName, messageName); err != nil {
-			return err
-		}
-		if err := cbor.NewEncoder(w).Encode(dm.Field(i).Interface()); err != nil {
+		if err := write(messageName, dm.Field(i).Interface()); err != nil {
 			return err
 		}
 	}
 
+	// devmod:nummodules follows in the same message if it fits
+	if used+len(devmodModuleName)+32 > int(mtu) {
+		return w.ForceNewMessage()
+	}
 	return nil
 }
 
@@ -185,7 +209,13 @@ func (d *Devmod) writeModuleMessages(modules []string, mtu uint16, w *UnchunkWri
 		if err := w.NextServiceInfo(devmodModuleName, "modules"); err != nil {
 			return err
 		}
-		return cbor.NewEncoder(w).Encode(chunk)
+		if err := cbor.NewEncoder(w).Encode(chunk); err != nil {
+			return err
+		}
+		// Every chunk gets a message of its own: the owner parses the chunks
+		// of each message separately, so a chunk must never be split between
+		// the space left in one message and the next message
+		return w.ForceNewMessage()
 	}
 
 	if err := w.NextServiceInfo(devmodModuleName, "nummodules"); err != nil {
@@ -209,11 +239,14 @@ func (d *Devmod) writeModuleMessages(modules []string, mtu uint16, w *UnchunkWri
 		chunk.Len++
 		chunk.Modules = append(chunk.Modules, modules[0])
 
-		// Brute force computing the encoded size by actually encoding it
-		var size sizewriter
-		if err := cbor.NewEncoder(&size).Encode([][]any{{key, chunk}}); err != nil {
+		// Brute force computing the encoded size by actually encoding it. The
+		// chunk travels as one ServiceInfo KV whose value is a byte string
+		// holding the encoded chunk.
+		val, err := cbor.Marshal(chunk)
+		if err != nil {
 			return fmt.Errorf("error calculating size of devmod:modules ServiceInfo: %w", err)
 		}
+		size := (&KV{Key: key, Val: val}).Size()
 
 		// Continue if MTU is not exceeded
 		if int(size) <= int(mtu) {
